@@ -449,6 +449,7 @@ func (l *Loader) mergePhase(prepared *preparedFetch) error {
 	verifPoint("ld.merging", verifFetchID(prepared.item), verifErrCount(l))
 
 	if prepared.multiEntries != nil {
+		defer func() { verifPoint("ld.merged", verifFetchID(prepared.item), verifErrCount(l)) }()
 		return l.mergeMultiEntityResult(prepared)
 	}
 
